@@ -13,6 +13,7 @@ package main
 //	stack  <col> <uni> <maxVal> <maxLen> <vals>            termunicode.BarWriteStacked
 //	cell   <col> <uni> <sc> <val> <min> <max>              HeatWrite + SparkWrite of Scale(..)
 //	strlen <col> <hex>                                     color.StrLen
+//	fmtseq <fmt> <v:min:max,...>                           one termformat formatter called on the triples in order
 //	hdr    <col> <ncols> <names>                           Heatmap.WriteHeader
 //	tablew <col> <maxCols> <maxRows> <script>              TableWriter.WriteRow / WriteFooter sequence (+ one footer);
 //	                                                       steps "/"-separated: <row>:<cells> or F<idx>:<hex line>
@@ -23,6 +24,10 @@ package main
 //	render table <col> <fmt> <rowTot> <colTot> <nrows> <ncols> <rowkeys> <colkeys> <phases>
 //	render heat  <col> <uni> <sc> <fmt> <nrows> <ncols> <fix> <fmin> <fmax> <rowkeys> <colkeys> <phases>
 //	render spark <col> <uni> <sc> <fmt> <nrows> <ncols> <trunc> <rowkeys> <colkeys> <phases>
+//
+// <fmt> is raw | hi | x<hex of a --format expression> (termformat.FromExpression, a fresh one per case; the
+// model evaluates the expression with the shared expression model and answers `unmodelled` for helpers
+// outside it).
 //
 // A sample history is a list of phases ("|"), each a list of samples (","), each "i:inc" or
 // "i:j:inc" (indices into the key lists, which hold distinct keys).  After every phase the renderer
@@ -67,15 +72,24 @@ func c14Scaler(s string) termscaler.Scaler {
 	return sc
 }
 
+// raw | hi | x<hex of a --format expression> (a FRESH termformat.FromExpression formatter per case)
 func c14Formatter(s string) termformat.Formatter {
-	switch s {
-	case "raw":
+	switch {
+	case s == "raw":
 		return termformat.Passthru
-	case "hi":
+	case s == "hi":
 		return termformat.Default
+	case strings.HasPrefix(s, "x"):
+		f, err := termformat.FromExpression(string(UnHex(s[1:])))
+		if err != nil {
+			panic(c14CompileError{})
+		}
+		return f
 	}
 	panic("bad formatter " + s)
 }
+
+type c14CompileError struct{}
 
 func c14Globals(col, uni string) {
 	color.Enabled = c14Bool(col)
@@ -125,8 +139,26 @@ func (s *c14Sink) WriteString(x string) (int, error) { return s.sb.WriteString(x
 
 const c14Sep = "\x00"
 
-func c14Run(f []string) string {
+func c14Run(f []string) (ans string) {
+	defer func() {
+		if r := recover(); r != nil {
+			if _, ok := r.(c14CompileError); ok {
+				ans = "compile-error"
+				return
+			}
+			panic(r)
+		}
+	}()
 	switch f[0] {
+	case "fmtseq":
+		// <fmt> <v:min:max,...>: one formatter, the calls in order
+		fm := c14Formatter(f[1])
+		var outs []string
+		for _, t := range strings.Split(f[2], ",") {
+			p := strings.Split(t, ":")
+			outs = append(outs, fm(c14I64(p[0]), c14I64(p[1]), c14I64(p[2])))
+		}
+		return "ok " + HexListS(outs)
 	case "scale":
 		sc := c14Scaler(f[1])
 		u := sc.Scale(c14I64(f[2]), c14I64(f[3]), c14I64(f[4]))
@@ -665,10 +697,45 @@ func c14GenReduce(r *Rand) string {
 		HexListS(dnames), HexListS(dexprs), HexListS(pool), strings.Join(phases, "|"))
 }
 
+// --format expressions: mostly inside the shared expression model and reading the range ({1}/{2}/{min}/{max})
+var c14FormatExprs = []string{"{0}/{2}", "{0} of {2}", "{subi {2} {0}}", "{1}..{2}:{0}", "{min}<{val}<{max}", "{sumi {0} {1}}",
+	"{value}", "{0}", "[{1},{2}]", "{multi {0} 10}", "{2}", "{subi {0} {1}}/{subi {2} {1}}", "sumi", "{3}{undef}|{0}|{max}",
+	"{percent {0} 2 {1} {2}}", "bytesize", "{0"}
+
+func c14Fmt(r *Rand) string {
+	switch r.Intn(5) {
+	case 0:
+		return "raw"
+	case 1:
+		return "hi"
+	default:
+		return "x" + HexS(Pick(r, c14FormatExprs))
+	}
+}
+
+// a formatter called on triples where the same value recurs under a changing range
+func c14GenFmtSeq(r *Rand) string {
+	n := 1 + r.Intn(8)
+	var ts []string
+	v, mn, mx := c14Val(r), int64(0), c14Val(r)
+	for i := 0; i < n; i++ {
+		switch r.Intn(4) {
+		case 0:
+			v = c14Val(r)
+		case 1:
+			mn = c14Val(r)
+		default:
+			mx = c14Val(r)
+		}
+		ts = append(ts, fmt.Sprintf("%d:%d:%d", v, mn, mx))
+	}
+	return fmt.Sprintf("fmtseq %s %s", c14Fmt(r), strings.Join(ts, ","))
+}
+
 func c14GenRender(r *Rand) string {
 	col, uni := c14B(r), c14B(r)
 	sc := Pick(r, c14Scalers)
-	fm := Pick(r, []string{"raw", "hi"})
+	fm := c14Fmt(r)
 	switch r.Intn(8) {
 	case 6:
 		return c14GenReduce(r)
@@ -710,7 +777,9 @@ func c14GenRender(r *Rand) string {
 }
 
 func c14GenSmall(r *Rand) string {
-	switch r.Intn(8) {
+	switch r.Intn(9) {
+	case 8:
+		return c14GenFmtSeq(r)
 	case 0, 1:
 		v, mn, mx := c14Triple(r)
 		return fmt.Sprintf("scale %s %d %d %d", Pick(r, c14Scalers), v, mn, mx)
